@@ -509,6 +509,14 @@ def conflict_suite(tier, seed):
         if names:
             d["connections"].append({"src": names[0], "dst": "router", "dst_idx": [1, 0], "dst_dir": "North"})
             out.append((d, {"topo": "double-attached", "via": "second array router"}))
+    # valid: two endpoints connected to each other directly, no router at all (chimney to chimney)
+    for algo in ("ID", "SRC"):
+        for nw in (False, True):
+            d = header("direct", nw, algo)
+            alloc = Alloc(rng)
+            d["endpoints"] = [mk_ep("epa", "ms", nw, rng, alloc), mk_ep("epb", "ms", nw, rng, alloc)]
+            d["connections"] = [{"src": "epa", "dst": "epb"}]
+            out.append((d, {"topo": "direct", "routers": 0}))
     # valid: routers of an array joined by explicit connections that name a direction at ONE end only (the link
     # is directed at one router and undirected at the other, next to directed endpoint links)
     for algo in ("XY", "ID", "SRC"):
@@ -596,6 +604,25 @@ def name_collision_suite(tier, seed):
                 d["routers"] = [{"name": "r1"}, {"name": "r_1"}]
                 d["connections"] = [{"src": "epa", "dst": "r1"}, {"src": "epb", "dst": "r_1"}, {"src": "r1", "dst": "r_1"}]
                 out.append((d, dict(t, topo="names", collision="router-router")))
+                # top-level AXI ports are named <endpoint>_<protocol>: endpoint `a` with protocol `b_c` and endpoint `a_b`
+                # with protocol `c` would both declare `a_b_c_req_i`
+                d, t = star(rng, 3, algo, nw, roles=["m", "m", "s"], shapes=[None, None, None], nranges=[1, 1, 1])
+                d = json.loads(json.dumps(d))
+                ins = [p for p in d["protocols"] if p["name"].endswith("_in")]
+                extra = []
+                for p in ins:
+                    for nm in ("b_c", "c"):
+                        q = dict(p); q["name"] = nm + ("" if not nw else "_" + p.get("type", ""))
+                        extra.append(q)
+                d["protocols"] += extra
+                sfx = [""] if not nw else ["_" + p.get("type", "") for p in ins]
+                d = _rename(d, {"epa": "a", "epb": "a_b"})
+                for e in d["endpoints"]:
+                    if e["name"] == "a":
+                        e["mgr_port_protocol"] = ["b_c" + x for x in sfx]
+                    if e["name"] == "a_b":
+                        e["mgr_port_protocol"] = ["c" + x for x in sfx]
+                out.append((d, dict(t, topo="names", collision="port-port")))
             else:
                 d, t = mesh(rng, 2, 1, algo, nw, sides=("W",))
                 if d is not None:
